@@ -6,7 +6,8 @@ use serde_json::json;
 pub fn build(tier: Tier) -> CheckDef {
     let spaces: Vec<Box<dyn Space>> = vec![
         Box::new(StreamSpace { which: Which::C17, cases: stream_cases(tier, Which::C17), threads: tier.pick(4, 8), budget_secs: tier.pick(150, 7200) }),
-        Box::new(Occupancy { which: Which::C17, max: tier.pick(40, 80) }),
+        Box::new(Occupancy { which: Which::C17, max: tier.pick(72, 100) }),
+        Box::new(OccupancyBig { which: Which::C17 }),
         Box::new(HugeOpen { which: Which::C17 }),
         Box::new(HugeSession { which: Which::C17, depth: tier.pick(2, 3), encs: tier.pick(1, 2) }),
     ];
